@@ -11,6 +11,7 @@ import (
 	"os"
 	"strings"
 	"sync"
+	"time"
 
 	"github.com/dop251/goja"
 )
@@ -23,6 +24,8 @@ type job struct {
 	At       int    `json:"at"`       // probe index (1-based) at which the fault is raised
 	MaxDepth int    `json:"maxdepth"` // call-stack limit for fault "depth"
 	After    string `json:"after"`    // script run on the same runtime after the (faulted) run
+	Pre      string `json:"pre"`      // "" | "idleint" (Interrupt while idle) | "idleintclear" (Interrupt + ClearInterrupt while idle)
+	AsyncUs  int    `json:"async_us"` // > 0: another goroutine calls Interrupt after this many microseconds
 }
 
 type result struct {
@@ -37,6 +40,8 @@ type result struct {
 	Idle     bool     `json:"idle"`
 	Regs     string   `json:"regs"`
 	Panic    string   `json:"panic,omitempty"`
+	FaultLog int      `json:"fault_log"` // number of log entries when the fault was raised (-1: not raised)
+	IntVal   string   `json:"int_val,omitempty"`
 }
 
 var (
@@ -45,13 +50,13 @@ var (
 )
 
 func sink(r *goja.Runtime, line []byte) {
+	// events of one runtime may come from two goroutines (Interrupt): serialise the writes
 	mu.Lock()
-	b := sinks[r]
-	mu.Unlock()
-	if b != nil {
+	if b := sinks[r]; b != nil {
 		b.Write(line)
 		b.WriteByte('\n')
 	}
+	mu.Unlock()
 }
 
 type foreignPanic struct{}
@@ -91,10 +96,12 @@ func runOne(j job) (res result, trace string) {
 		mu.Unlock()
 	}()
 	probes := 0
+	res.FaultLog = -1
 	vm.Set("log", func(x int64) { res.Log = append(res.Log, x) })
 	vm.Set("probe", func(call goja.FunctionCall) goja.Value {
 		probes++
 		if probes == j.At {
+			res.FaultLog = len(res.Log)
 			switch j.Fault {
 			case "throw":
 				panic(vm.ToValue(777))
@@ -128,6 +135,19 @@ func runOne(j job) (res result, trace string) {
 	if j.Fault == "depth" {
 		vm.SetMaxCallStackSize(j.MaxDepth)
 	}
+	switch j.Pre {
+	case "idleint":
+		vm.Interrupt("idle-injected")
+	case "idleintclear":
+		vm.Interrupt("idle-injected")
+		vm.ClearInterrupt()
+	}
+	if j.AsyncUs > 0 {
+		go func() {
+			time.Sleep(time.Duration(j.AsyncUs) * time.Microsecond)
+			vm.Interrupt("async-injected")
+		}()
+	}
 	func() {
 		defer func() {
 			if r := recover(); r != nil {
@@ -148,6 +168,10 @@ func runOne(j job) (res result, trace string) {
 		res.Outcome = classify(err)
 		if err != nil {
 			res.Err = err.Error()
+			var ie *goja.InterruptedError
+			if errors.As(err, &ie) {
+				res.IntVal = fmt.Sprint(ie.Value())
+			}
 		}
 	}()
 	res.Probes = probes
